@@ -20,6 +20,8 @@ PV = [
     ("date", [dt.date(987, 6, 5)]), ("text", ["first note", "second\nline", "third"]),
     ("string", ["a", "b b", "c", "d", "e", "f", "g", "h", "i", "j", "k", "l"]),
     ("2-tuple", ["(1;2)", "(3;4)"]), ("3-tuple", ["(a;b;c)"]), ("int", []), (None, []), ("string", ['say "hi"', "it's", "[br]"]), ("string", ["100%", "%%d"]), ("string", ["next\x85line", "sep\u2028arator", "nb\xa0sp"]), ("string", ["astral \U0001F600 plane", "x"]), ("float", [1e-07, 1e+16, 5.0]),
+    ("datetime", [dt.datetime(2020, 1, 2, 3, 4, 5, tzinfo=dt.timezone(dt.timedelta(hours=2))), dt.datetime(1999, 12, 31, 23, 59, 59)]),
+    ("time", [dt.time(1, 2, 3, tzinfo=dt.timezone.utc)]),
 ]
 TEXTS = ["plain G-Node text", "  surrounded by space \n", "<tag> & \"quote\"", "ünï", "yes", "12", None, "50%% of 10% %s",
          "two  blanks\tand a\nline break, NEL \x85 and LS \u2028 inside"]
@@ -217,6 +219,92 @@ def replay(st):
                     rec["out"], rec["exc"] = "raised", type(e).__name__
                     rec["world"] = unc_text(W.project_full({"r1": odml.Document()}, idtok)[0])
                 rec["exp"] = exp_xml
+                yield rec
+            # one reader object used for two loads of the same text (a reader may not carry state from one load to the next)
+            for fmt in ("XML", "JSON", "YAML"):
+                for mode in ("strict", "lenient"):
+                    rec = {"fam": "formats", "src": "model", "t": "doc", "fmt": fmt, "entry": "reader-reused", "mode": mode, "opt": "plain", "variant": variant,
+                           "out": "ok", "exc": "none", "x": "d1", "y": "r1", "warnings": 0, "vocab": {"root": "-", "version": "-", "pairs": []}, "dictkeys": []}
+                    try:
+                        text = ODMLWriter(fmt).to_string(doc)
+                        path = os.path.join(d, "twice." + fmt.lower())
+                        open(path, "w", encoding="utf-8").write(text)
+                        if fmt == "XML":
+                            rec["vocab"] = vocab_xml(text)
+                            rd = XMLReader(ignore_errors=(mode == "lenient"), show_warnings=False)
+                            rd.from_string(text)
+                            loaded = rd.from_file(path) if variant else rd.from_string(text)
+                            rec["warnings"] = len(rd.warnings)
+                        else:
+                            dd = json.loads(text) if fmt == "JSON" else yaml.safe_load(text)
+                            rec["dictkeys"] = vocab_dict(dd)
+                            if mode == "strict":
+                                rd = DictReader(show_warnings=False, ignore_errors=False)
+                                rd.to_odml(dd)
+                                loaded = rd.to_odml(json.loads(text) if fmt == "JSON" else yaml.safe_load(text))
+                            else:
+                                rd = ODMLReader(fmt, show_warnings=False)
+                                rd.from_string(text)
+                                loaded = rd.from_file(path) if variant else rd.from_string(text)
+                        rec["world"] = unc_text(W.project_full({"r1": loaded}, idtok)[0])
+                    except Exception as e:
+                        rec["out"], rec["exc"] = "raised", type(e).__name__
+                        rec["world"] = unc_text(W.project_full({"r1": odml.Document()}, idtok)[0])
+                    rec["exp"] = exp_xml if fmt == "XML" else pre_u
+                    yield rec
+            # a document the XML form cannot represent (a control character that XML 1.0 forbids, in one text of the document):
+            # the writer has to raise - or the file still loads to the document; it is never written in altered form
+            ctl = ["esc\x1b[0m", "bell\x07", "ff\x0c", "nul-ish\x01"][(variant + salt) % 4]
+            cdoc = doc.clone(keep_id=True)
+            where = (variant + salt) % 5
+            csecs = list(cdoc.itersections())
+            cprops = [p for p in cdoc.iterproperties() if p.dtype in ("string", "text") and p.values]
+            if where == 0 or not csecs:
+                cdoc.author = ctl
+            elif where == 1 or not cprops:
+                csecs[salt % len(csecs)].definition = ctl
+            elif where == 2:
+                cprops[salt % len(cprops)].values = [ctl]
+            elif where == 3:
+                cp = cprops[salt % len(cprops)]
+                cp.values = list(cp.values) + [ctl]
+            else:
+                cprops[salt % len(cprops)].definition = ctl
+            cexp = unc_text(strip_world(W.project_full({"d1": cdoc}, idtok)[0]))
+            for entry in ("string", "file", "XMLWriter.str", "XMLWriter.write_file"):
+                rec = {"fam": "formats", "src": "model", "t": "unrep", "fmt": "XML", "entry": entry, "mode": "strict", "opt": "plain", "variant": variant,
+                       "out": "ok", "exc": "none", "stage": "write", "x": "d1", "y": "r1", "warnings": 0, "vocab": {"root": "-", "version": "-", "pairs": []}, "dictkeys": [],
+                       "exp": cexp}
+                try:
+                    path = os.path.join(d, "ctl.xml")
+                    if entry == "string":
+                        text = ODMLWriter("XML").to_string(cdoc)
+                    elif entry == "file":
+                        odml.save(cdoc, path, "XML"); text = open(path, encoding="utf-8").read()
+                    elif entry == "XMLWriter.str":
+                        text = str(XMLWriter(cdoc))
+                    else:
+                        XMLWriter(cdoc).write_file(path, local_style=bool(variant)); text = open(path, encoding="utf-8").read()
+                    rec["stage"] = "read"
+                    loaded = XMLReader(ignore_errors=False, show_warnings=False).from_string(text) if entry in ("string", "XMLWriter.str") else odml.load(path, "XML", show_warnings=False)
+                    rec["world"] = unc_text(W.project_full({"r1": loaded}, idtok)[0])
+                except Exception as e:
+                    rec["out"], rec["exc"] = "raised", type(e).__name__
+                    rec["world"] = unc_text(W.project_full({"r1": odml.Document()}, idtok)[0])
+                yield rec
+            # the same document is representable in JSON and YAML
+            for fmt in ("JSON", "YAML"):
+                rec = {"fam": "formats", "src": "model", "t": "doc", "fmt": fmt, "entry": "string-ctl", "mode": "lenient", "opt": "plain", "variant": variant,
+                       "out": "ok", "exc": "none", "x": "d1", "y": "r1", "warnings": 0, "vocab": {"root": "-", "version": "-", "pairs": []}, "dictkeys": [],
+                       "exp": unc_text(W.project_full({"d1": cdoc}, idtok)[0])}
+                try:
+                    text = ODMLWriter(fmt).to_string(cdoc)
+                    rec["dictkeys"] = vocab_dict(json.loads(text) if fmt == "JSON" else yaml.safe_load(text))
+                    loaded = ODMLReader(fmt, show_warnings=False).from_string(text)
+                    rec["world"] = unc_text(W.project_full({"r1": loaded}, idtok)[0])
+                except Exception as e:
+                    rec["out"], rec["exc"] = "raised", type(e).__name__
+                    rec["world"] = unc_text(W.project_full({"r1": odml.Document()}, idtok)[0])
                 yield rec
             # one XMLWriter object: rendered once, the document edited, written again
             rec = {"fam": "formats", "src": "model", "t": "doc", "fmt": "XML", "entry": "writer-reused", "mode": "strict", "opt": "plain", "variant": variant,
